@@ -32,12 +32,15 @@ type scen struct {
 	// DiskFull: the real disk watchdog runs, the disk is full from the start and stays full; the
 	// stop request (controler.stopPipeline's order: watchdog first) comes after the watchdog paused
 	DiskFull bool `json:"disk_full,omitempty"`
-	P      int           `json:"p"`
+	// Broken: the first page also embeds resources whose transfer breaks after the headers (reset; a timeout
+	// that every further read repeats): responses that are complete for the WARC writer and fail in ProcessBody
+	Broken bool `json:"broken,omitempty"`
+	P      int  `json:"p"`
 }
 
 func (s *scen) name() string {
 	o := s.Opt
-	return fmt.Sprintf("seeds=%d w%d a%d limiter=%v proxy=%v async=%v seencheck=%s paused=%v%s", s.Seeds, o.Workers, o.MaxConcurrentAssets, o.RateLimit, o.Proxy, o.AsyncWARC, seenName(o), s.Paused, map[bool]string{true: " disk-full", false: ""}[s.DiskFull])
+	return fmt.Sprintf("seeds=%d w%d a%d limiter=%v proxy=%v async=%v seencheck=%s paused=%v%s", s.Seeds, o.Workers, o.MaxConcurrentAssets, o.RateLimit, o.Proxy, o.AsyncWARC, seenName(o), s.Paused, map[bool]string{true: " disk-full", false: ""}[s.DiskFull]) + map[bool]string{true: " broken-bodies", false: ""}[s.Broken]
 }
 
 func seenName(o world.Options) string {
@@ -56,7 +59,18 @@ type obs struct {
 	stopStep     int
 }
 
-func site() world.SiteDef {
+func site() world.SiteDef { return siteWith(false) }
+
+func siteWith(broken bool) world.SiteDef {
+	d := siteBase()
+	if broken {
+		d.Nodes[0].Refs = append(d.Nodes[0].Refs, H+"/cut.png", H+"/stall.png")
+		d.Nodes = append(d.Nodes, world.Node{URL: H + "/cut.png", Kind: "cut"}, world.Node{URL: H + "/stall.png", Kind: "stall"})
+	}
+	return d
+}
+
+func siteBase() world.SiteDef {
 	return world.SiteDef{Name: "two pages", Seeds: []string{H + "/p1", H + "/p2"}, Nodes: []world.Node{
 		{URL: H + "/p1", Kind: "html", Refs: []string{H + "/a.png", H + "/flaky.png"}}, {URL: H + "/a.png", Kind: "bin"},
 		{URL: H + "/flaky.png", Kind: "flaky", FailN: 1},
@@ -68,7 +82,7 @@ func scenario(s *scen) *vsched.Scenario {
 	var w *world.World
 	var o *obs
 	sc := &vsched.Scenario{Name: s.name()}
-	d := site()
+	d := siteWith(s.Broken)
 	d.Seeds = d.Seeds[:s.Seeds]
 	sc.Setup = func(x *vsched.Exec) {
 		opt := s.Opt
@@ -195,6 +209,9 @@ func scenarios(tier string) []scen {
 	}
 	// paused by the real disk watchdog on a disk that stays full
 	out = append(out, scen{Opt: world.Options{Workers: 1, MaxConcurrentAssets: 1}, Seeds: 1, DiskFull: true, P: P})
+	// responses that the writer records and whose body then fails in the archiver
+	out = append(out, scen{Opt: world.Options{Workers: 1, MaxConcurrentAssets: 1}, Seeds: 1, Broken: true, P: P},
+		scen{Opt: world.Options{Workers: 1, MaxConcurrentAssets: 2}, Seeds: 1, Broken: true, P: P})
 	// the other configuration dimensions on the one-worker, one-seed instance
 	for _, o := range []world.Options{
 		{Workers: 1, MaxConcurrentAssets: 1, Proxy: true},
